@@ -120,6 +120,8 @@ def sweep_once(c, scale_override=None):
             cp = float(reg.coolant.heat_capacity)
             out.append({'id': a.id, 'delivered': {k: float(v) for k, v in a._power_delivered.items()},
                         'enthalpy_rise': (tm - float(rx.inlet_temp)) * mt * cp,
+                        # round-off floor of m cp (T_out - T_in): one ulp of the temperature level per step
+                        'h_floor': mt * cp * float(rx.inlet_temp) * 2.3e-16 * max(1, len(rx.z) - 1),
                         'adiabatic': bool(rx._is_adiabatic),
                         'total_power': float(a.total_power),
                         'T': np.concatenate([a.temp_coolant.ravel(), a.temp_duct_mw.ravel()]) - rx.inlet_temp,
@@ -163,11 +165,11 @@ def run_case(c):
                                '(ratio %.6f)' % (got / want if want else float('nan')),
                                got, want, TOL * scale))
         # adiabatic, constant properties: everything deposited ends up in the coolant
-        if o['adiabatic'] and abs(o['enthalpy_rise'] - want) > 1e-8 * scale:
+        if o['adiabatic'] and abs(o['enthalpy_rise'] - want) > 1e-8 * scale + o['h_floor']:
             V.append(violation('deposited-heat-not-in-coolant', dict(c, asm=o['id']),
                                'coolant enthalpy rise of the adiabatic assembly differs from the power assigned '
                                '(ratio %.6f)' % (o['enthalpy_rise'] / want if want else float('nan')),
-                               o['enthalpy_rise'], want, 1e-8 * scale))
+                               o['enthalpy_rise'], want, 1e-8 * scale + o['h_floor']))
     want_core = float(tot_exact * norm * sc)
     if c.get('total') is not None:
         want_core2 = float(c['total']) * (float(c['scaling']) if c.get('scaling') is not None else 1.0)
